@@ -1,6 +1,7 @@
 package rules
 
 import (
+	"sort"
 	"go/types"
 
 	"conduitlint/kit"
@@ -12,7 +13,7 @@ func init() {
 	register(&Property{
 		ID:  "C06",
 		Run: runC06,
-		Explanation: "Decides the structural clauses of a draining graceful stop: (R1) v1 source and destination nodes register, on the Open success edge, a deferred teardown that waits for all open messages first (destination: stop → wait → teardown), every tracked message is added to the tracker before it is sent on, and status handlers run newest-first so the tracker's Done is the last step of an ack; (R2) every Open has its Close/Teardown on all exits (DLQ handler, processor node, v2 worker rollback, idempotent source teardown under its mutex); (R3) StopAndWait = Stop[ok] → WaitPipeline[ok] → WaitPersisted → nil in both engines; (R4) v2 Worker.Stop takes the processing lock before arming the stop flag and tearing the source down, and a batch is discarded only after the lock was acquired; (R5 = C02.R7) Source.Teardown's flush → drain → stop order; (R6) the stop position is fetched and recorded before the stop control message is injected; (R7) every flush generation of the persister completes (callbacks run, callbacksDone closed) on every exit of flushNow.",
+		Explanation: "Decides the structural clauses of a draining graceful stop: (R1) v1 source and destination nodes register, on the Open success edge, a deferred teardown that waits for all open messages first (destination: stop → wait → teardown), every tracked message is added to the tracker before it is sent on, and status handlers run newest-first so the tracker's Done is the last step of an ack; (R2) every Open has its Close/Teardown on all exits (DLQ handler, processor node, v2 worker rollback, idempotent source teardown under its mutex); (R3) StopAndWait = Stop[ok] → WaitPipeline[ok] → WaitPersisted → nil in both engines; (R4) v2 Worker.Stop takes the processing lock before arming the stop flag and tearing the source down, and a batch is discarded only after the lock was acquired; (R5 = C02.R7) Source.Teardown's flush → drain → stop order; (R6) the stop position is fetched and recorded before the stop control message is injected; (R7) every flush generation of the persister completes (callbacks run, callbacksDone closed) on every exit of flushNow; (R8) no send on the node error channel reachable from a persister flush callback can block (non-blocking select on a buffered channel), so the final flush after the node stopped cannot hang Persister.Wait / stop-and-wait.",
 		NotDecided:  []string{"that the drain terminates in general (liveness beyond R7)", "timing of debounce timers", "plugin behaviour"},
 		Assumptions: []string{"sync.WaitGroup, rollback.R (Append/Skip/Execute) semantics", "deferred functions run in LIFO order on every exit"},
 	})
@@ -26,6 +27,7 @@ func runC06(c *Ctx) {
 	c02TeardownOrder(c, c.R.Rule("R5", "K3 (= C02.R7) Source.Teardown: flush → wait → close queue → drain → stop stream → join → plugin teardown", 9))
 	c06R6(c)
 	c06R7(c)
+	c06R8(c)
 }
 
 // deferredClosures returns the defer instructions of fn whose deferred function
@@ -506,4 +508,140 @@ func c06R7(c *Ctx) {
 		}
 	}
 	c.R.Check(okWD, r, "flushNow: writeDone closed by a defer registered at entry", c.Pos(fn.Pos()), "defer close(st.writeDone)", "writeDone is not closed by a defer at the top of flushNow: a later flush or WaitPendingWrites can block forever", true)
+}
+
+// c06R8: a flush callback never blocks on the node's error channel (F19): the
+// persister joins its callbacks in Wait/WaitPendingWrites, and the node only
+// reads errs while it runs, so a blocking send for the final flush would hang
+// stop-and-wait.
+func c06R8(c *Ctx) {
+	r := c.R.Rule("R8", "K1/K3 flush callbacks never block: every send on Source.errs / Destination.errs reachable from a callback handed to Persister.Persist is an arm of a non-blocking select, and both channels are created with a buffer", 5)
+	persist := c.Fn(r, pConn, "(*Persister).Persist")
+	if persist == nil {
+		return
+	}
+	fields := []*types.Var{c.Field(r, pConn, "Source", "errs"), c.Field(r, pConn, "Destination", "errs")}
+	isErrs := func(v ssa.Value) bool {
+		for _, f := range fields {
+			if f != nil && kit.IsFieldLoad(v, f) {
+				return true
+			}
+		}
+		return false
+	}
+	p := c.W.Pkg(pConn)
+	sp := c.W.SSA[p.Types]
+	// callbacks handed to Persist
+	var roots []*ssa.Function
+	for _, m := range sp.Members {
+		var fns []*ssa.Function
+		switch x := m.(type) {
+		case *ssa.Function:
+			fns = kit.WithAnon(x)
+		case *ssa.Type:
+			for _, t := range []types.Type{x.Type(), types.NewPointer(x.Type())} {
+				ms := c.W.Prog.MethodSets.MethodSet(t)
+				for i := 0; i < ms.Len(); i++ {
+					if f := c.W.Prog.MethodValue(ms.At(i)); f != nil && f.Pkg == sp {
+						fns = append(fns, kit.WithAnon(f)...)
+					}
+				}
+			}
+		}
+		for _, f := range fns {
+			for _, call := range kit.CallsTo(f, Set(persist)) {
+				a := call.Common().Args
+				cb := kit.Unwrap(a[len(a)-1])
+				if mc, ok := cb.(*ssa.MakeClosure); ok {
+					roots = append(roots, mc.Fn.(*ssa.Function))
+				} else if f, ok := cb.(*ssa.Function); ok {
+					roots = append(roots, f)
+				} else if !kit.IsNilConst(cb) {
+					c.R.Undecided(r, "Persist callback in "+kit.FuncKey(f), c.Pos(call.Pos()), "the callback handed to Persister.Persist is not a function literal: cannot enumerate what it sends on")
+				}
+			}
+		}
+	}
+	// everything statically reachable from the callbacks inside the package
+	seen := map[*ssa.Function]bool{}
+	var visit func(f *ssa.Function)
+	visit = func(f *ssa.Function) {
+		if f == nil || seen[f] || f.Pkg != sp {
+			return
+		}
+		seen[f] = true
+		for _, b := range f.Blocks {
+			for _, in := range b.Instrs {
+				switch x := in.(type) {
+				case ssa.CallInstruction:
+					if callee := x.Common().StaticCallee(); callee != nil {
+						visit(callee)
+					}
+					for _, a := range x.Common().Args {
+						if mc, ok := a.(*ssa.MakeClosure); ok {
+							visit(mc.Fn.(*ssa.Function))
+						}
+					}
+				case *ssa.MakeClosure:
+					visit(x.Fn.(*ssa.Function))
+				}
+			}
+		}
+	}
+	seenRoot := map[*ssa.Function]bool{}
+	for _, f := range roots {
+		if !seenRoot[f] {
+			seenRoot[f] = true
+			visit(f)
+		}
+	}
+	c.R.Check(len(seenRoot) >= 3, r, "Persist callbacks enumerated", "", "ok", "fewer than the 3 Persist callbacks confirmed by hand were found", false)
+	var fs []*ssa.Function
+	for f := range seen {
+		fs = append(fs, f)
+	}
+	sort.Slice(fs, func(i, j int) bool { return kit.FuncKey(fs[i]) < kit.FuncKey(fs[j]) })
+	nSends := 0
+	for _, f := range fs {
+		for _, b := range f.Blocks {
+			for _, in := range b.Instrs {
+				switch x := in.(type) {
+				case *ssa.Send:
+					if isErrs(x.Chan) {
+						nSends++
+						c.R.Fail(r, kit.FuncKey(f)+": send on errs from a flush callback", c.Pos(x.Pos()), "a blocking send on the node's error channel is reachable from a Persister flush callback: after the node stopped reading, the final flush's callback never returns and Persister.Wait / stop-and-wait hang")
+					}
+				case *ssa.Select:
+					for _, st := range x.States {
+						if st.Dir == types.SendOnly && isErrs(st.Chan) {
+							nSends++
+							c.R.Check(!x.Blocking, r, kit.FuncKey(f)+": send on errs from a flush callback", c.Pos(x.Pos()), "non-blocking select", "the select sending on the node's error channel from a Persister flush callback has no default arm: it can block forever once the node stopped reading", true)
+						}
+					}
+				}
+			}
+		}
+	}
+	c.R.Check(nSends >= 2, r, "flush failures are still reported to the node", "", "ok", "no send on errs is reachable from the flush callbacks any more: a failed state flush would go unnoticed by the node", false)
+	// the channels are buffered
+	if fn := c.SSA(r, pConn, "(*Instance).Connector"); fn != nil {
+		n := 0
+		for _, in := range kit.Instrs(fn, func(in ssa.Instruction) bool { _, ok := in.(*ssa.MakeChan); return ok }) {
+			mk := in.(*ssa.MakeChan)
+			flows := kit.FlowsTo(mk, func(in ssa.Instruction, x ssa.Value) bool {
+				st, ok := in.(*ssa.Store)
+				if !ok || st.Val != x {
+					return false
+				}
+				f := kit.FieldOf(st.Addr)
+				return kit.SameField(f, fields[0]) || kit.SameField(f, fields[1])
+			})
+			if !flows {
+				continue
+			}
+			n++
+			c.R.Check(!kit.IsIntConst(mk.Size, 0), r, "Instance.Connector: errs is buffered", c.Pos(mk.Pos()), "buffered", "errs is created unbuffered: the non-blocking report of a flush failure would be dropped whenever the node is not receiving at that instant", true)
+		}
+		c.R.Check(n == 2, r, "Instance.Connector: creates both errs channels", c.Pos(fn.Pos()), "2", "expected the errs channels of Source and Destination to be created in Instance.Connector", false)
+	}
 }
